@@ -159,6 +159,24 @@ def m_date_add(ev, a, t, d):
     raise sym.Undecided("NaiveDate + non-day duration")
 
 
+def m_date_checked_add(ev, a, t, d):
+    """A2': NaiveDate::checked_add_signed / checked_add_days(date, k days) = Some(the date k days later) whenever the day
+    count is a small unsigned quantity plus a constant (then the sum is within chrono's range)"""
+    dt, du = a
+    if dt[0] == "date" and du[0] == "dur" and du[1] == 86_400_000:
+        base, k = affine(du[2])
+        if dt[1] is not None and base is not None:
+            raise sym.Undecided("date + two symbolic day counts")
+        b = dt[1] if dt[1] is not None else base
+        if (b is None or small_unsigned(b)) and -90_000_000 < dt[2] + k < 90_000_000:
+            return some(("date", canon_base(b), dt[2] + k))
+    raise sym.Undecided("checked date addition of an unbounded or non-day duration")
+
+
+def m_days_new(ev, a, t, d):
+    return ("dur", 86_400_000, a[0])
+
+
 def m_time_from_secs(ev, a, t, d):
     if is_c(a[0]) and is_c(a[1]):
         if 0 <= a[0][1] < 86400 and 0 <= a[1][1] < 2_000_000_000:
@@ -200,6 +218,9 @@ MODELS = {
     "<chrono::naive::time::NaiveTime as core::ops::arith::Add<chrono::time_delta::TimeDelta>>::add": m_time_add,
     "chrono::naive::datetime::NaiveDateTime::new": m_ndt_new,
     "chrono::naive::date::NaiveDate::from_num_days_from_ce_opt": m_from_num_days_from_ce_opt,
+    "chrono::naive::date::NaiveDate::checked_add_signed": m_date_checked_add,
+    "chrono::naive::date::NaiveDate::checked_add_days": m_date_checked_add,
+    "chrono::naive::Days::new": m_days_new,
     "chrono::naive::time::NaiveTime::overflowing_add_signed": m_overflowing_add_signed,
     "chrono::naive::date::NaiveDate::and_time": m_and_time,
     "chrono::naive::datetime::NaiveDateTime::and_utc": m_and_utc,
